@@ -22,9 +22,14 @@ Inductive psite :=
 | PS_bundle_nil_inner      (* protoToDeal / protoToResp / protoToJustif on a oneof wrapper whose message is nil *)
 | PS_bundle_nil_element    (* protoToDeal: nil element of Deals (likewise Responses / Justifications) *)
 | PS_variant_nil_inner     (* DBState.Apply: p.Accept.Acceptor / p.Reject.Rejector with a nil wrapper message *)
-| PS_proposal_nil_leader   (* DBState.Proposed: terms.Leader.Address with terms == nil or Leader == nil *)
-| PS_left_state_proposal   (* validateReshareForRemainers: currentState.FinalGroup.Nodes with FinalGroup == nil (F13b) *)
-| PS_abort_nil_leader.     (* DBState.Aborted: d.Leader.Address on a state without leader *)
+| PS_proposal_nil_terms    (* DBState.Proposed: terms.Leader with terms == nil (a nil message inside the oneof wrapper).
+                              A proposal whose Leader is absent is refused since fix 1b94cdfe *)
+| PS_abort_nil_leader      (* DBState.Aborted: d.Leader.Address on a state without leader *)
+| PS_execute_nil_leader.   (* DBState.Executing: d.Leader.Address on a state without leader (leaver shortcut since
+                              fix 8daaa2ef, or the ordinary path) *)
+(* The former site "reshare proposal on a state without final group" (F13b,
+   validateReshareForRemainers) is gone: since fix 4d77f863 the proposal is refused with
+   ErrMissingPreviousGroup. *)
 
 Inductive decision := Answer | Reject | EPanic (s : psite).
 
@@ -33,7 +38,7 @@ Inductive decision := Answer | Reject | EPanic (s : psite).
 (* proposal terms, by how far they get in DBState.Proposed / ValidateProposal *)
 Inductive terms_shape :=
 | TNil                 (* GossipPacket_Proposal{Proposal: nil}: only constructible in process *)
-| TNilLeader           (* terms.Leader absent *)
+| TNilLeader           (* terms.Leader absent: refused (ErrCannotProposeAsNonLeader) *)
 | TSenderMismatch      (* terms.Leader.Address <> metadata.Address *)
 | TInvalidEarly        (* fails validateForAllDKGs / validateFirstEpoch / validateReshareTerms, or the
                           genesis time / seed comparison of validateReshareForRemainers *)
@@ -77,7 +82,10 @@ Record nstate := mkN {
   n_exec : bool;                (* Process.Executions has a broadcaster for the id *)
   n_status : status;            (* effective DKG state: the current one, or, when that is terminal, the last finished / fresh *)
   n_leader_set : bool;          (* that state has a Leader *)
-  n_fg_set : bool               (* that state has a FinalGroup *)
+  n_fg_set : bool;              (* that state has a FinalGroup *)
+  n_timed_out : bool;           (* hasTimedOut: its Timeout is not in the future *)
+  n_me_leaving : bool;          (* this node is in its Leaving list *)
+  n_me_member : bool            (* this node is in its Remaining or Joining list *)
 }.
 
 Definition is_fresh (s : status) : bool := status_eqb s Fresh.
@@ -126,11 +134,12 @@ Definition decide_apply (v : variant) (ns : nstate) (deep_ok : bool) : decision 
   | VProposal t =>
       if negb (valid_change (n_status ns) Proposed) then Reject else
       match t with
-      | TNil | TNilLeader => EPanic PS_proposal_nil_leader
+      | TNil => EPanic PS_proposal_nil_terms
+      | TNilLeader => Reject                             (* ErrCannotProposeAsNonLeader *)
       | TSenderMismatch | TInvalidEarly => Reject
       | TReachesFinalGroup =>
           if is_fresh (n_status ns) then fin
-          else if negb (n_fg_set ns) then EPanic PS_left_state_proposal
+          else if negb (n_fg_set ns) then Reject         (* ErrMissingPreviousGroup *)
           else fin
       end
   | VAccept inner_nil | VReject inner_nil =>
@@ -139,7 +148,14 @@ Definition decide_apply (v : variant) (ns : nstate) (deep_ok : bool) : decision 
       if negb (valid_change (n_status ns) Aborted) then Reject
       else if negb (n_leader_set ns) then EPanic PS_abort_nil_leader
       else fin
-  | VExecute => fin
+  | VExecute =>
+      if n_timed_out ns then Reject
+      else if n_me_leaving ns && valid_change (n_status ns) Left then
+        (if negb (n_leader_set ns) then EPanic PS_execute_nil_leader else fin)
+      else if negb (valid_change (n_status ns) Executing) then Reject
+      else if negb (n_me_member ns) then Reject
+      else if negb (n_leader_set ns) then EPanic PS_execute_nil_leader
+      else fin
   end.
 
 (* dkg.Process.Packet *)
